@@ -4,7 +4,7 @@ use super::{draw_cfg_benign, Body, Doc};
 use crate::formats::Bytes;
 use crate::harness::{Cfg, Harness, RunResult, Tier};
 use crate::rng::{fnv1a, Rng, FNV_INIT};
-use crate::simfs::Benign;
+use crate::simfs::{Benign, Call, Hostile, IoFault};
 use physis::patch::ZiPatch;
 use serde::{Deserialize, Serialize};
 use std::collections::BTreeMap;
@@ -21,7 +21,7 @@ pub struct C04Doc {
     pub b: Vec<FileEnt>,
 }
 
-pub const PROBES: [&str; 11] = [
+pub const PROBES: [&str; 13] = [
     "file_only_in_a",
     "file_only_in_b",
     "file_in_both_same",
@@ -33,6 +33,8 @@ pub const PROBES: [&str; 11] = [
     "listing_permuted",
     "short_or_interrupted_io",
     "file_name_extends_sibling_directory_name",
+    "hostile_completion_fired_during_apply",
+    "apply_failed_under_fault",
 ];
 
 const BOUNDARY_SIZES: [usize; 22] = [
@@ -47,7 +49,9 @@ const NAMES: [&str; 12] = [
 fn gen_path(r: &mut Rng, depth: usize) -> String {
     let mut parts = vec![];
     for _ in 0..depth {
-        parts.push(format!("d{}", r.below(3)));
+        // some directory names are string prefixes of a sibling's name ("d1" and "d10")
+        let suffix = if r.chance(1, 4) { *r.pick(&["0", "x", "_a"]) } else { "" };
+        parts.push(format!("d{}{}", r.below(3), suffix));
     }
     if r.chance(1, 5) {
         // a file whose name extends a sibling directory's name by a character that sorts before
@@ -129,14 +133,23 @@ pub fn generate(seed: u64, tier: Tier) -> Doc {
             }
         }
     }
-    Doc {
-        prop: "C04".into(),
-        seed,
-        cfg,
-        benign,
-        io_faults: vec![],
-        body: Body::C04(C04Doc { a, b }),
+    // flagged extension: one hostile completion while the created patch is being applied; apply
+    // must then fail, or the tree must still be exactly B's
+    let mut io_faults = vec![];
+    let mut cfg = cfg;
+    if r.chance(1, 6) {
+        let (call, kind, nth) = match r.below(6) {
+            0 => (Call::RemoveFile, *r.pick(&[Hostile::Eacces, Hostile::Erofs, Hostile::Eio]), r.below(3) as u32),
+            1 => (Call::Open, *r.pick(&[Hostile::Eacces, Hostile::Emfile, Hostile::Enospc]), 1 + r.below(6) as u32),
+            2 => (Call::CreateDirAll, *r.pick(&[Hostile::Eacces, Hostile::Enospc, Hostile::Eexist]), r.below(4) as u32),
+            3 => (Call::SetLen, Hostile::Eio, r.below(3) as u32),
+            4 => (Call::Read, *r.pick(&[Hostile::Eio, Hostile::EarlyEof]), r.log_size(3000) as u32),
+            _ => (Call::Write, *r.pick(&[Hostile::Enospc, Hostile::Eio, Hostile::WriteZero]), r.below(8) as u32),
+        };
+        io_faults.push(IoFault { op: 1, call, nth, kind, sticky: false, path_contains: None });
+        cfg = Cfg::Hostile;
     }
+    Doc { prop: "C04".into(), seed, cfg, benign, io_faults, body: Body::C04(C04Doc { a, b }) }
 }
 
 pub fn directed() -> Vec<Doc> {
@@ -322,16 +335,27 @@ pub fn run(doc: &Doc, body: &C04Doc, trace: bool) -> RunResult {
         let plen = patch.len() as u64;
         fs.h_write(P, patch);
         // op 1: apply onto the copy of A
+        let hostile_before = fs.stats(|s| s.hostile_fired.iter().sum::<u64>());
         let r = h.op(1, "ZiPatch::apply", plen + input_bytes, || ZiPatch::apply(T, P)).done();
+        let fired = fs.stats(|s| s.hostile_fired.iter().sum::<u64>()) > hostile_before;
+        if fired {
+            h.probe(11);
+        }
+        let mut skip_tree = false;
         match r {
             Some(Ok(())) => {}
+            Some(Err(_)) if fired => {
+                // an I/O error may fail the application; nothing is demanded of the tree then
+                h.probe(12);
+                skip_tree = true;
+            }
             Some(Err(e)) => h.violate(
                 &format!("apply-err|{:?}", e),
                 format!("applying the created patch failed with {:?}", e),
             ),
             None => {}
         }
-        if !h.failed() {
+        if !h.failed() && !skip_tree {
             let snap = fs.snapshot(T);
             let got: BTreeMap<&str, &Vec<u8>> = snap
                 .iter()
@@ -341,14 +365,14 @@ pub fn run(doc: &Doc, body: &C04Doc, trace: bool) -> RunResult {
                 match got.get(p) {
                     None => {
                         h.violate(
-                            &format!("tree-diff|missing|{}", class_of(p)),
+                            &format!("{}tree-diff|missing|{}", if fired { "under-fault|" } else { "" }, class_of(p)),
                             format!("{} ({}) is absent after apply", p, class_of(p)),
                         );
                         break;
                     }
                     Some(g) if **g != *d => {
                         h.violate(
-                            &format!("tree-diff|content|{}", class_of(p)),
+                            &format!("{}tree-diff|content|{}", if fired { "under-fault|" } else { "" }, class_of(p)),
                             format!(
                                 "{} ({}) has {} bytes, expected {} bytes of B's content",
                                 p,
@@ -366,7 +390,7 @@ pub fn run(doc: &Doc, body: &C04Doc, trace: bool) -> RunResult {
                 for (p, _) in &got {
                     if !in_b.contains_key(p) {
                         h.violate(
-                            &format!("tree-diff|extra|{}", class_of(p)),
+                            &format!("{}tree-diff|extra|{}", if fired { "under-fault|" } else { "" }, class_of(p)),
                             format!("{} ({}) is present after apply but not in B", p, class_of(p)),
                         );
                         break;
